@@ -114,6 +114,12 @@ Theorem C03_verdict_no_artefact : forall sorted ss out v,
 Proof. exact run_verdict. Qed.
 Print Assumptions C03_verdict_no_artefact.
 
+(* in the emulator the "backwards jump in time" test of update_clocks is unreachable: stream_step has
+   already refused, and the heap pops a minimum *)
+Theorem C03_update_clocks_never_fires : forall ss out v, run true ss = (out, v) -> v <> VBackPlayer.
+Proof. exact run_no_backplayer. Qed.
+Print Assumptions C03_update_clocks_never_fires.
+
 (* independence from the enumeration order of the stream directories: the FULL output sequence
    (ties included) and the verdict are equal for any two enumerations of the same streams *)
 Theorem C03_enum_independent : forall enum enum',
